@@ -74,33 +74,36 @@ Proof. exact child_never_moves. Qed.
 Print Assumptions C08_child_never_moves.
 
 (** at the level of the log — what the harness compares with the real addresses: over the whole
-    history (distinct child ids), every poll and every drop of a child that was handed to the
-    collection (constructor, push; not pulled from an upstream in mid-operation) is logged at
-    one and the same address *)
+    history (distinct child ids), in every collection and combinator, every poll and every drop
+    of a child — also of one an adapter pulls from its upstream, polls, completes and drops inside
+    a single call — is logged at one and the same address *)
 From FB Require Import AddrEvents AddrEventsHist.
 Theorem C08_log_addresses_stable :
   forall (P : params), params_ok P ->
   forall (ops : list op) (c : N) (b i b' i' : nat),
   NoDup (taken_in P init_state ops ++ pulled_in P init_state ops) ->
-  ~ In c (pulled_in P init_state ops) ->
   In (c, b, i) (aevs_in P init_state ops) -> In (c, b', i') (aevs_in P init_state ops) -> b = b' /\ i = i'.
 Proof. exact log_addresses_stable. Qed.
 Print Assumptions C08_log_addresses_stable.
 
 (** one operation: every address event is about a child that sat at that address when the
-    operation began, or about a child pulled from the upstream during the operation *)
+    operation began, or about a child pulled from the upstream during the operation, at the slot
+    it was placed in ([H]: the homes of the pulled children, each pulled id at most once); what is
+    held afterwards sat there before, or is at its home, or was taken by this push / constructor *)
 Theorem C08_events_at_the_childs_address :
-  forall (P : params) (k : coll) (o : op) (w : world), ESTEP k w (snd (step_core P k o w)).
-Proof. exact step_core_estep. Qed.
+  forall (P : params), params_ok P ->
+  forall (k : coll) (o : op) (w : world), cinv k w ->
+  HSTEP k o w (fst (step_core P k o w)) (snd (step_core P k o w)).
+Proof. exact step_core_hstep. Qed.
 Print Assumptions C08_events_at_the_childs_address.
 
 (** the monitor the checks run on the implementation's traces, [chk_C08], accepts the model's own
-    trace of every such history: it demands nothing the model does not deliver *)
+    trace of every history of distinct children: it demands nothing the model does not deliver *)
 From FB Require Import Monitors AddrMonitor.
 Theorem C08_monitor_accepts_the_model :
   forall (P : params), params_ok P ->
   forall (ops : list op),
-  NoDup (taken_in P init_state ops) -> pulled_in P init_state ops = [] ->
+  NoDup (taken_in P init_state ops ++ pulled_in P init_state ops) ->
   chk_C08 (trace_of P ops) = true.
 Proof. exact monitor_C08_accepts_the_model. Qed.
 Print Assumptions C08_monitor_accepts_the_model.
